@@ -5,7 +5,7 @@
     Statements only; every proof is an [exact] of a lemma proved in Proofs/. *)
 From E57 Require Import Base.Prelude Model.Device Model.PagedReader Model.Record Model.Prog
   Model.QueueReader Model.FileBin Model.ReaderOpen Spec.BitSpec Spec.PageSpec Spec.FormatSpec Spec.FileSpec
-  Proofs.PagedReaderCache Proofs.QueueReaderProofs Proofs.SpecReader Proofs.SpecC03.
+  Proofs.PagedReaderCache Proofs.QueueReaderProofs Proofs.SpecReaderTail Proofs.SpecReader Proofs.SpecC03.
 From Coq Require Import Permutation.
 From E57 Require Import Base.Floats Model.Meta Model.MetaFile Model.XmlTree Model.XmlParse Model.XmlExtract
   Spec.FileSpecXml Spec.XmlRender Proofs.SpecXml Proofs.SpecXmlExample Proofs.SpecTypeDefaults Proofs.SpecTypeDefaults2.
@@ -24,16 +24,11 @@ From E57 Require Import Base.Floats Model.Meta Model.MetaFile Model.XmlTree Mode
     Hypotheses:
     - [x <> []]: an empty XML text at the very end of the last page cannot be seeked to;
     - [len x <= MAX_XML_SIZE]: the reader refuses longer XML texts (documented limit);
-    - [pcs_followed]: no compressed vector is followed by nothing at all (no padding, no
-      entry, no page filler): for a vector without packets the data offset would then be the
-      end of the file and the reader's seek fails ([C03_needs_pcs_followed]; the real crate
-      behaves the same - reported finding);
     - size below 2^64: header fields and offsets are u64. *)
 Theorem C03_any_layout : forall (fl : file_layout) (x : list N),
   file_layout_ok fl = true ->
   x <> [] ->
   len x <= MAX_XML_SIZE ->
-  pcs_followed fl (len x) (spec_file_filler fl x) = true ->
   len (spec_encode_file fl x) < 2 ^ 64 ->
   let f := spec_encode_file fl x in
   let xo := phys_of_log (xml_start 48 fl (len x)) in
@@ -55,19 +50,36 @@ Theorem C03_section_any_layout :
                             (fun it => raw_collect fuel (len log) it [])) 0) = Ok points.
 Proof. exact qr_decodes_any_layout. Qed.
 
-(** [pcs_followed] cannot be dropped: a zero-record vector without packets that ends the file
-    exactly at the end of the last page; every other hypothesis holds and [raw_new] fails. *)
-Theorem C03_needs_pcs_followed :
+(** A section may be the very last thing of the file.  The former hypothesis [pcs_followed]
+    is gone: an empty vector is not seeked to ([qr_decodes_empty], /repo 2adadd6 - before, the
+    real reader failed on it: reported finding), a non-empty one always has a data packet
+    ([Proofs/SpecReaderTail.v]).  The former counterexample, now read: a zero-record vector
+    without packets that ends the file exactly at the end of the last page. *)
+Theorem C03_vector_at_file_end :
   let fl := [FXml; FPc [TSingle] [] [] 0] in let x := repeat 32 940 in
   file_layout_ok fl = true /\ x <> [] /\ len x <= MAX_XML_SIZE /\
   len (spec_encode_file fl x) = 1024 /\
   pcs_followed fl (len x) (spec_file_filler fl x) = false /\
   spec_layout_offsets fl (len x) = [phys_of_log 48; phys_of_log (48 + 940)] /\
   match reader_open (dev_init (spec_encode_file fl x) None) with
-  | (_, Ok (rs, _, _)) => snd (rrun (raw_new (phys_of_log (48 + 940)) 0 [TSingle]) rs) = Err ERead
+  | (_, Ok (rs, _, _)) =>
+      snd (rrun (rbind (raw_new (phys_of_log (48 + 940)) 0 [TSingle])
+                       (fun it => raw_collect 1 (pr_log_size rs) it [])) rs) = Ok []
   | _ => False
   end.
-Proof. exact spec_file_read_needs_pcs_followed. Qed.
+Proof. exact spec_file_read_vector_at_file_end. Qed.
+
+(** The core without "something follows the section". *)
+Theorem C03_section_any_layout_at_end :
+  forall (proto : list dtype) (points : list (list rvalue)) (lay : layout) (pre post log : list N) (fuel : nat),
+  scene_ok proto points = true -> legal proto points lay = true ->
+  log = pre ++ encode_section (phys_of_log (len pre + 32)) lay ++ post ->
+  len pre mod 4 = 0 ->
+  (length points < fuel)%nat ->
+  len log mod 1020 = 0 -> phys_of_log (len log) < 2 ^ 64 ->
+  snd (rrun_spec log (rbind (raw_new (phys_of_log (len pre)) (len points) proto)
+                            (fun it => raw_collect fuel (len log) it [])) 0) = Ok points.
+Proof. exact qr_decodes_any_layout_tail. Qed.
 
 (** Non-vacuity, by the theorem and by evaluation: blob of 1019 bytes with 8 bytes of padding,
     XML in the middle, a vector with a 0-bit, an 11-bit, a 64-bit and a double record in a
@@ -108,7 +120,6 @@ Theorem C03_any_layout_any_rendering : forall (pf64 pf32 : xstr -> option N) (fd
   let x := render c t in
   Permutation (meta_descriptors m) (layout_descriptors 48 fl (len x)) ->
   len x <= MAX_XML_SIZE ->
-  pcs_followed fl (len x) (spec_file_filler fl x) = true ->
   len (spec_encode_file fl x) < 2 ^ 64 ->
   let f := spec_encode_file fl x in
   exists rs d',
@@ -198,7 +209,8 @@ Proof. exact float_limits_irrelevant. Qed.
 
 Print Assumptions C03_any_layout.
 Print Assumptions C03_section_any_layout.
-Print Assumptions C03_needs_pcs_followed.
+Print Assumptions C03_vector_at_file_end.
+Print Assumptions C03_section_any_layout_at_end.
 Print Assumptions C03_instance.
 Print Assumptions C03_instance_computed.
 Print Assumptions C03_any_layout_any_rendering.
